@@ -62,9 +62,9 @@ def proof_status(pid):
             res["axioms"][name] = []
             good += 1
         else:
-            names = re.findall(r"^([\w.]+)\s*:", b, re.M)
+            names = [l.split()[0] for l in b.split("\n")[1:] if l and not l[0].isspace() and re.match(r"[A-Za-z_][\w.]*", l)]
             res["axioms"][name] = names
-            if all(any(n.endswith(a.split(".")[-1]) for a in ALLOWED_AXIOMS) for n in names):
+            if names and all(n in ALLOWED_AXIOMS for n in names):
                 good += 1
     res["discharged"] = good if len(blocks) >= len(theorems) else min(good, len(blocks))
     res["ok"] = res["discharged"] == res["obligations"] and res["obligations"] > 0
